@@ -2,14 +2,16 @@
 import os, json
 import vf
 
-DEVS = ["DevNoPauseCheckInAttempt", "DevDoubleTimer", "DevNoClamp", "DevSuccessKeepsState"]
+DEVS = ["DevNoPauseCheckInAttempt", "DevDoubleTimer", "DevNoClamp", "DevSuccessKeepsState",
+        "DevAggressiveReconnectIgnoresSleep"]
+HF_AGENT = ["common/common_test.go.tmpl", "agent/cmesh_test.go", "agent/reconnect_agent_test.go"]
 # delay instances (Initial ms, MulN, MulD, MaxDelay ms) per saturation index Cap; the cap is deliberately NOT
 # Initial*Multiplier^n (only then does clamping the product matter).  The harness replays every path on one of several
 # real configurations with the same saturation index (multipliers 1.5, 2, 3, 4; see zzvRcDefaultDelays).
 DELAYS = {2: (20, 2, 1, 70), 3: (20, 3, 2, 60), 1: (20, 4, 1, 50)}
 HF = ["common/common_test.go.tmpl", "peer/reconnect_test.go"]
-INVS = "TypeOK OneTimer NoTimerWhilePaused NextDelayOK"
-PROPS = "NoAttemptWhilePaused Backoff ArmIndex"
+INVS = "TypeOK OneTimer NoTimerWhilePaused NextDelayOK AsleepPaused"
+PROPS = "NoAttemptWhilePaused Backoff ArmIndex AgentNoDialWhileAsleep"
 
 # mismatch kinds that are violations of the statement (the others are binding drift -> exit 2)
 VIOLATION_KINDS = {
@@ -17,6 +19,7 @@ VIOLATION_KINDS = {
     "extra-attempt": "DevDoubleTimer",                  # a second timer of the address fired and started an attempt of its own
     "backoff-order": "DevDoubleTimer",                  # n-th consecutive attempt started by a timer armed with another index
     "early-timer": "delay-too-short",                   # delay below nominal*(1-jitter)
+    "dial-while-asleep": "DevAggressiveReconnectIgnoresSleep",   # the sleeping agent dialed (>= 2 dials while SLEEPING)
     "backoff-state": "backoff-index",                   # next delay is not min(initial*mult^k, max), k = consecutive attempts
                                                         # since the last success / cancel / reset
 }
@@ -24,14 +27,20 @@ VIOLATION_KINDS = {
 # the attempt instead of the current one), skip-unexpected, state, timer-missing, extra-timer-harmless
 
 
-def cfg(addrs, cap_, maxatt, attbound, maxgate, maxinfl, withstop, dev=(), emit=True, invs=INVS, props=PROPS, delays=None):
+def cfg(addrs, cap_, maxatt, attbound, maxgate, maxinfl, withstop, dev=(), emit=True, invs=INVS, props=PROPS, delays=None,
+        agent=False):
     ini, mn, md, mx = delays or DELAYS[cap_]
     return ("CONSTANTS Addr = {%s} Cap = %d MaxAttempts = %d AttBound = %d MaxGate = %d MaxInfl = %d MaxPend = 2 "
-            "Initial = %d MulN = %d MulD = %d MaxDelay = %d "
+            "Initial = %d MulN = %d MulD = %d MaxDelay = %d WithAgent = %s MaxTicks = 2 MaxAggr = 2 "
             "WithStop = %s Dev = {%s} Emit = %s\nINIT Init\nNEXT Next\nVIEW view\nACTION_CONSTRAINT EmitEdge\n%s%s" % (
                 ",".join('"%s"' % a for a in addrs), cap_, maxatt, attbound, maxgate, maxinfl, ini, mn, md, mx,
+                "TRUE" if agent else "FALSE",
                 "TRUE" if withstop else "FALSE", ",".join('"%s"' % d for d in dev), "TRUE" if emit else "FALSE",
                 ("INVARIANTS " + invs + "\n") if invs else "", ("PROPERTIES " + props + "\n") if props else ""))
+
+
+# agent-level model: (addrs, Cap, MaxAttempts, AttBound, MaxGate, MaxInfl, WithStop) with WithAgent = TRUE
+AGENT_MODEL = (["a"], 2, 3, 0, 1, 1, False)
 
 
 def is_init(s):
@@ -46,13 +55,16 @@ def sensitivity(ctx, base, separately):
     want = {"DevNoPauseCheckInAttempt": [("", "NoAttemptWhilePaused"), ("NoTimerWhilePaused", "")],
             "DevDoubleTimer": [("OneTimer", ""), ("", "Backoff")],
             "DevNoClamp": [("NextDelayOK", "")],
-            "DevSuccessKeepsState": [("NextDelayOK", ""), ("", "Backoff")]}
+            "DevSuccessKeepsState": [("NextDelayOK", ""), ("", "Backoff")],
+            "DevAggressiveReconnectIgnoresSleep": [("AsleepPaused", ""), ("", "AgentNoDialWhileAsleep")]}
     for d, checks in want.items():
         if not separately:
             checks = [(INVS, PROPS)]
+        agent = d == "DevAggressiveReconnectIgnoresSleep"
+        b = AGENT_MODEL if agent else base
         for invs, props in checks:
-            r = ctx.tlc("Reconnect", "MCdev.cfg", files={"MCdev.cfg": cfg(*base, dev=[d], emit=False, invs=invs, props=props)},
-                        expect_violation=True)
+            r = ctx.tlc("Reconnect", "MCdev.cfg", expect_violation=True,
+                        files={"MCdev.cfg": cfg(*b, dev=[d], emit=False, invs=invs, props=props, agent=agent)})
             if not r.violated:
                 raise vf.Infra("deviation %s is not caught by %s (vacuous model)" % (d, invs or props))
             caught.setdefault(d, []).append(r.violated)
@@ -99,21 +111,22 @@ def report(ctx, res, where):
     return drift
 
 
-def trace_cfg(addrs, cap_, maxatt):
+def trace_cfg(addrs, cap_, maxatt, agent=False):
     ini, mn, md, mx = DELAYS[cap_]   # the recorded executions use several real configurations; the trace compares indices
     return ("CONSTANTS Addr = {%s} Cap = %d MaxAttempts = %d AttBound = 1000000 MaxGate = 1000000 MaxInfl = 1000000 "
-            "MaxPend = 1000000 Initial = %d MulN = %d MulD = %d MaxDelay = %d WithStop = TRUE Dev = {} Emit = FALSE\n"
+            "MaxPend = 1000000 Initial = %d MulN = %d MulD = %d MaxDelay = %d WithAgent = %s MaxTicks = 1000000 MaxAggr = 1000 "
+            "WithStop = TRUE Dev = {} Emit = FALSE\n"
             "INIT TraceInit\nNEXT TraceNext\nCONSTRAINT HighWater\n"
-            "INVARIANTS TypeOK OneTimer NoTimerWhilePaused NextDelayOK\nPOSTCONDITION TraceAccepted\n" % (
-                ",".join('"%s"' % a for a in addrs), cap_, maxatt, ini, mn, md, mx))
+            "INVARIANTS TypeOK OneTimer NoTimerWhilePaused NextDelayOK AsleepPaused\nPOSTCONDITION TraceAccepted\n" % (
+                ",".join('"%s"' % a for a in addrs), cap_, maxatt, ini, mn, md, mx, "TRUE" if agent else "FALSE"))
 
 
-def _validate(ctx, name, tracefile, addrs, cap_, maxatt, where):
+def _validate(ctx, name, tracefile, addrs, cap_, maxatt, where, agent=False):
     """TLC decides whether the recorded execution is a behaviour of Reconnect.tla; a rejection is classified by the
     event that could not be matched."""
     cfgname = "Trace_%s.cfg" % name
     e = {"TRACE_FILE": tracefile}
-    res = ctx.tlc("TraceReconnect", cfgname, files={cfgname: trace_cfg(addrs, cap_, maxatt)}, workers=1, env=e,
+    res = ctx.tlc("TraceReconnect", cfgname, files={cfgname: trace_cfg(addrs, cap_, maxatt, agent)}, workers=1, env=e,
                   expect_violation=True, name=name, dump_trace=False, tags=("HW", "LEN"))
     hw = [o for t, o in res.prints if t == "HW"]
     ln = [o for t, o in res.prints if t == "LEN"]
@@ -132,6 +145,8 @@ def _validate(ctx, name, tracefile, addrs, cap_, maxatt, where):
     # classification of the event that is not a step of the specification
     name_ = ev and ev.get("ev")
     kind, dev = "unmatched-%s" % name_, None
+    if name_ == "AggressiveTick" and ev.get("res") == "dialed" and ev.get("st", {}).get("asleep"):
+        kind, dev = "dial-while-asleep", "DevAggressiveReconnectIgnoresSleep"
     if name_ == "TimerFire":
         # a timer the specification does not have: a violation if it goes on to start an attempt
         for nx in events[h:]:
@@ -179,7 +194,8 @@ def _direct(ctx, recs, where):
             raise vf.Infra("%s harness: %s" % (where, d))
         if kind in VIOLATION_KINDS:
             dev = VIOLATION_KINDS[kind]
-            ctx.finding("Reconnect:%s:%s:%s" % (dev, kind, where), "%s: %s %s" % (where, kind, d.get("detail", d)), d)
+            extra = {k: v for k, v in d.items() if k not in ("k", "kind", "detail")}
+            ctx.finding("Reconnect:%s:%s:%s" % (dev, kind, where), "%s: %s %s %s" % (where, kind, d.get("detail", ""), vf.canon(extra)), d)
 
 
 def manager(ctx, rounds, k):
@@ -206,4 +222,24 @@ def random_traces(ctx, name, ntraces, nops, maxatt, par=16):
         raise vf.Infra("trace harness produced no summary:\n" + r.out[-3000:])
     _direct(ctx, r.of("direct"), "Reconnector")
     v = _validate(ctx, "trace_" + name, out, ["a", "b"], 2, maxatt, "Reconnector")
+    return summ, v
+
+
+def agent_model(ctx):
+    """TLC on the agent-level instance (AgentSleep / AgentWake / AggressiveTick on top of the reconnector)"""
+    r = ctx.tlc("Reconnect", "MCagent.cfg", files={"MCagent.cfg": cfg(*AGENT_MODEL, emit=False, agent=True)})
+    if r.violated:
+        raise vf.Infra("ideal agent-level Reconnect spec violates %s (specification error)" % r.violated)
+    return r
+
+
+def agent_cmesh(ctx, rounds):
+    """real agents on the controlled in-memory mesh: Sleep, Wake, Sleep inside the aggressive-reconnect window"""
+    out = os.path.join(ctx.work, "recon_agent.ndjson")
+    r = ctx.gotest("agent", HF_AGENT, "^TestZZVReconAgent$", env={"ZZV_OUT": out, "ZZV_ROUNDS": rounds}, timeout=900)
+    summ = (r.of("summary") or [None])[0]
+    if not summ:
+        raise vf.Infra("agent harness produced no summary:\n" + r.out[-3000:])
+    _direct(ctx, r.of("direct"), "Agent")
+    v = _validate(ctx, "agent", out, ["a"], 2, 0, "Agent", agent=True)
     return summ, v
